@@ -49,6 +49,7 @@ def tcp_delivery(draw, modes=("rec", "rec", "flight", "flight", "cuts", "cuts", 
         t["cuts"] = [draw(st.lists(st.integers(0, 40000), max_size=12)), draw(st.lists(st.integers(0, 40000), max_size=12))]
     if dups:
         t["dups"] = draw(st.lists(st.tuples(st.integers(0, 60), st.integers(0, 4)).map(list), max_size=4))
+        t["redups"] = draw(st.lists(st.tuples(st.integers(0, 60), st.integers(1, 3), st.integers(0, 4)).map(list), max_size=2))
     if moves:
         t["moves"] = draw(st.lists(st.tuples(st.integers(0, 60), st.integers(1, 4)).map(list), max_size=3))
     return t
